@@ -513,6 +513,9 @@ def _run_case(case, mon):
                     else:
                         model.pop(pre + (c,), None)
                 wrote.update(pre + (c,) for c in upd)
+                # `sub += g` is a populate loop: an element it leaves at the default is removed from the fiber (C05), so a handle
+                # obtained earlier under this prefix may now refer to a box that is no longer stored -- such handles are retired
+                held = [(hp, r_) for hp, r_ in held if hp[:len(pre)] != pre]
                 mon.count("partial_fiber_operand_updates")
                 mon.check(_raw_lookup(root, pre) is sub, "ref:partial:update-replaced-sub-fiber",
                           f"after {label} through the handle at the prefix {pre} the stored sub-fiber is another object")
